@@ -150,6 +150,16 @@ def _acc(E, it, pkg):
             acc2.f["data"] = GInt("uint%d" % bits, bits, False, d)
             it.invoke(("method", GI.GPtr(acc2), "BpSetByte"), [di, GInt("int", 64, True, l), GInt("uint8", 8, False, b)])
             E.oblige("post:%s.BpSetByte[%d]" % (tn, l), acc2.f["data"].term() == (d | (z3.ZeroExt(bits - 8, b) << l)))
+    # two levels: I(0) is the OUTERMOST array index, I(1) the next (generated accessors index x[di.I(0)][di.I(1)])
+    d2 = it.call_func(pkg, pkg.funcs["NewDataIndexer"], [7])[0]
+    a_, b_ = E.fresh("outer", z3.BitVecSort(64)), E.fresh("inner", z3.BitVecSort(64))
+    it.invoke(("method", d2, "IndexStackUp"), [])
+    it.invoke(("method", d2, "IndexReplace"), [GInt("int", 64, True, a_)])
+    it.invoke(("method", d2, "IndexStackUp"), [])
+    it.invoke(("method", d2, "IndexReplace"), [GInt("int", 64, True, b_)])
+    g0 = it.invoke(("method", d2, "I"), [GInt("int", 64, True, 0)])[0]
+    g1 = it.invoke(("method", d2, "I"), [GInt("int", 64, True, 1)])[0]
+    E.oblige("post:DataIndexer.I(level)", z3.And(g0.term() == a_, g1.term() == b_))
     di = it.call_func(pkg, pkg.funcs["NewDataIndexer"], [7])[0]
     it.invoke(("method", di, "IndexStackUp"), [])
     it.invoke(("method", di, "IndexReplace"), [GInt("int", 64, True, 4)])
@@ -162,7 +172,9 @@ def _acc(E, it, pkg):
 # ----------------------------------------------------------------------------- per program
 def _mk_unit(u: family.Unit, optimize: bool):
     variant = "opt" if optimize else "std"
-    props = ["C04"] if optimize else [p for p in ["C19", "C14", "C07"] if p in (getattr(u, "props_go", None) or ["C19", "C14", "C07"])]
+    # C04 (Go): -O output and standard-mode output agree because BOTH are proved against the same layout - the standard-mode runs count
+    props = ["C04"] if optimize else ([p for p in ["C19", "C14", "C07"] if p in (getattr(u, "props_go", None) or ["C19", "C14", "C07"])]
+                                      + (["C04"] if "traditional" in u.tags or u.name.startswith("leaf:") else []))
     pid = "gen-go:%s:%s" % (variant, u.name)
 
     def run(concrete=None, only=None) -> ProofResult:
@@ -255,3 +267,375 @@ def _mk_pair(name, s1, m1, s2, m2, project):
 
 for _pair in family.evolution_pairs():
     _mk_pair(*_pair)
+
+
+# ----------------------------------------------------------------------------- generic contracts of the Go runtime walkers
+from ..gosym.interp import GStub, GoLoopCut, GStruct, GPtr, GSlice
+
+
+def gomethod(pid, tname, mname, props, doc=""):
+    """like goproof, for a method (type, name) of lib/go/bitproto.go"""
+    def deco(body):
+        def run(concrete=None) -> ProofResult:
+            res = ProofResult(pid=pid, obls=[])
+            try:
+                prog, pkg, src = _runtime()
+                if (tname, mname) not in pkg.methods:
+                    res.error = "target not found: func (%s) %s" % (tname, mname)
+                    return res
+                import hashlib
+                res.sha = hashlib.sha256(repr(pkg.methods[(tname, mname)][0]).encode()).hexdigest()[:16]
+                E = EN.Engine(pid, "%s.%s" % (tname, mname), RUNTIME, props)
+                E.concrete = concrete
+                it = Interp(prog, oblige=lambda kind, label, goal: E.oblige("%s:%s" % (kind, label),
+                                                                            z3.BoolVal(goal) if isinstance(goal, bool) else goal, kind=kind))
+                E.explore(lambda: body(E, it, pkg))
+                res.obls, res.paths = E.obls, E.completed_paths
+                if not E.obls:
+                    res.error = "no obligations generated"
+            except GI.GoUnsupported as e:
+                res.error = "unsupported Go construct: %s" % (e,)
+            except SyntaxError as e:
+                res.error = "Go construct outside the parsed subset: %s" % (e,)
+            except Exception as e:
+                res.error = "engine exception: %r\n%s" % (e, traceback.format_exc(limit=-6))
+            return res
+        register(ProofDef(pid=pid, func="%s.%s" % (tname, mname), file=RUNTIME, props=props, run=run, doc=doc or (body.__doc__ or ""),
+                          calls=["processBaseType / element Processor / Accessor (abstract, by contract)"]))
+        return body
+    return deco
+
+
+B64 = z3.BitVecSort(64)
+
+
+def _ctx(E, it, pkg, enc):
+    ctx = it.zero(pkg, ("name", "ProcessContext"))
+    i0 = E.fresh("i", B64)
+    E.assume(z3.And(i0 >= 0, i0 < (1 << 32)))
+    ctx.f["isEncode"] = enc
+    ctx.f["i"] = GInt("int", 64, True, i0)
+    return ctx, i0
+
+
+def _ci(ctx):
+    return ctx.f["i"].term()
+
+
+def _adv(ctx, d):
+    ctx.f["i"] = GInt("int", 64, True, _ci(ctx) + d)
+
+
+def _go_array(enc, ext):
+    mode = ("encode" if enc else "decode") + ("/extensible" if ext else "/fixed")
+
+    @gomethod("go:Array.Process/" + mode, "Array", "Process", ["C19", "C05", "C14"])
+    def _p(E, it, pkg):
+        """elements k = 0 .. cap-1 in ascending order through the element processor with the SAME ctx, di (top of the index stack = k)
+        and accessor; the 16-bit prefix first when extensible; the index stack is back to its depth afterwards; cursor =
+        i0 + 16*ext + cap*w, and when decoding an extensible array i0 + 16 + max(ahead, cap)*w (never backwards)"""
+        cap = E.fresh("cap", B64)
+        w = E.fresh("w", B64)
+        ahead = E.fresh("ahead", z3.BitVecSort(16))
+        E.assume(z3.And(cap >= 1, cap <= 65535, w >= 0, w <= (1 << 20)))
+        mw = z3.Function("mul_w", B64, B64)                       # ghost: mw(k) = k * w, by its step equations
+        MUL = z3.Function("MUL", B64, B64, B64)
+        DIV = z3.Function("DIV", B64, B64, B64)
+        a64 = z3.ZeroExt(48, ahead)
+        aw = MUL(a64, w)
+        bound = 65535 * (1 << 20)
+        E.assume(z3.And(mw(z3.BitVecVal(0, 64)) == 0, mw(cap) >= 0, mw(cap) <= bound))
+        if ext and not enc:
+            it.abs_muldiv = {"mul": MUL, "div": DIV}
+            ci, wi, ai = z3.Int("c"), z3.Int("w"), z3.Int("a")
+            E.oblige("lemma:L1-exact-division", z3.Implies(z3.And(ci >= 1, wi >= 0), (ci * wi) / ci == wi), kind="lemma")
+            E.oblige("lemma:L2-product-bounded", z3.Implies(z3.And(ai >= 0, ai <= 65535, wi >= 0, wi <= (1 << 20), ci >= 1, ci <= 65535),
+                                                            z3.And(ai * wi >= 0, ai * wi <= bound, ci * wi <= bound)), kind="lemma")
+            E.oblige("lemma:L3-max-distributes", z3.Implies(z3.And(ci >= 1, ai >= 0, wi >= 0),
+                                                            z3.If(ai * wi >= ci * wi, ai * wi, ci * wi) == z3.If(ai >= ci, ai, ci) * wi),
+                     kind="lemma")
+            E.assume(z3.And(DIV(mw(cap), cap) == w, aw >= 0, aw <= bound, MUL(a64, w) == MUL(w, a64),
+                            z3.If(aw >= mw(cap), aw, mw(cap)) == z3.If(a64 >= cap, aw, mw(cap))))
+        ctx, i0 = _ctx(E, it, pkg, enc)
+        pre = 16 if ext else 0
+        acc = GStub("Accessor", {})
+        di = it.call_func(pkg, pkg.funcs["NewDataIndexer"], [7])[0]
+        depth0 = len(di.t.f["aistack"])
+        calls, prefix = [], []
+
+        def elem(I, a):
+            c, d, ac = a
+            top = d.t.f["aistack"]
+            top = top.items[top.lo + len(top) - 1] if isinstance(top, GSlice) else top[-1]
+            calls.append((c, d, ac, _ci(ctx), top, len(d.t.f["aistack"])))
+            _adv(ctx, w)
+            return []
+        t = it.zero(pkg, ("name", "Array"))
+        t.f["extensible"] = ext
+        t.f["capacity"] = GInt("int", 64, True, cap)
+        t.f["elementProcessor"] = GStub("Processor", {"Process": elem})
+        it.method_contracts[("Array", "EncodeExtensibleAhead")] = lambda I, r, a: (prefix.append(("enc", _ci(ctx), r, a)), _adv(ctx, 16), [])[2]
+        it.method_contracts[("Array", "DecodeExtensibleAhead")] = lambda I, r, a: (prefix.append(("dec", _ci(ctx), r, a)), _adv(ctx, 16),
+                                                                                    [GInt("uint16", 16, False, ahead)])[2]
+        kterm = lambda e: e["k"][0].term()
+
+        def inv(e):
+            k = kterm(e)
+            E.assume(z3.And(mw(k + 1) == mw(k) + w, mw(k) >= 0, mw(k) <= bound))      # step equation of the ghost at the current k
+            return [("range", z3.And(k >= 0, k <= cap)), ("cursor", _ci(ctx) == i0 + pre + mw(k)),
+                    ("index-stack-depth", z3.BoolVal(len(di.t.f["aistack"]) == depth0 + 1))]
+        back = {}
+        cut = GoLoopCut(inv=inv, variant=lambda e: cap - kterm(e), havoc=["k"],
+                        pre_assume=lambda e: (ctx.f.__setitem__("i", GInt("int", 64, True, E.fresh("ctx_i", B64))), calls.clear()),
+                        at_back_edge=lambda e: back.update(k=kterm(e)))
+        it.loop_cuts[("Process", 1)] = cut
+        tp = GPtr(t)
+        cp = GPtr(ctx)
+        try:
+            it.invoke(("method", tp, "Process"), [cp, di, acc])
+        except EN.StopPath:
+            k1 = back.get("k")
+            ok = k1 is not None and len(calls) == 1 and calls[0][0] is cp and calls[0][1] is di and calls[0][2] is acc and calls[0][5] == depth0 + 1
+            if ok:
+                top = calls[0][4]
+                top = top.term() if hasattr(top, "term") else z3.BitVecVal(int(top), 64)
+                E.oblige("post:element-call", z3.And(calls[0][3] == i0 + pre + mw(k1 - 1), top == k1 - 1))
+            else:
+                E.oblige("post:element-call", z3.BoolVal(False))
+            raise
+        if ext:
+            okp = len(prefix) == 1 and prefix[0][0] == ("enc" if enc else "dec") and prefix[0][2] is tp and prefix[0][3][0] is cp
+            E.oblige("post:prefix-call", z3.And(z3.BoolVal(bool(okp)), prefix[0][1] == i0) if prefix else z3.BoolVal(False))
+        else:
+            E.oblige("post:prefix-call", z3.BoolVal(not prefix))
+        E.oblige("post:index-stack-restored", z3.BoolVal(len(di.t.f["aistack"]) == depth0))
+        if enc or not ext:
+            E.oblige("post:cursor", _ci(ctx) == i0 + pre + mw(cap))
+        else:
+            E.oblige("post:cursor", _ci(ctx) == i0 + 16 + z3.If(a64 >= cap, aw, mw(cap)))
+            E.oblige("post:cursor-not-backwards", _ci(ctx) >= i0 + 16 + mw(cap))
+    return _p
+
+
+for _enc in (True, False):
+    for _ext in (True, False):
+        _go_array(_enc, _ext)
+
+
+def _go_message(enc, ext, nf):
+    mode = "%s/%s/%d-fields" % ("encode" if enc else "decode", "extensible" if ext else "fixed", nf)
+
+    @gomethod("go:MessageProcessor.Process/" + mode, "MessageProcessor", "Process", ["C19", "C05"])
+    def _p(E, it, pkg):
+        """(field count fixed to 0..3 in this proof - the range loop is unrolled, widths / prefix / cursor are symbolic) the fields are
+        processed in descriptor order with the same ctx, the CHILD accessor (accessor.BpGetAccessor(di) when di != nil) ; prefix first when
+        extensible; cursor = i0 + 16*ext + sum of widths, and when decoding an extensible message i0 + max(ahead, own), never backwards"""
+        ctx, i0 = _ctx(E, it, pkg, enc)
+        ws = [E.fresh("w%d" % k, B64) for k in range(nf)]
+        for x in ws:
+            E.assume(z3.And(x >= 0, x <= 65535))
+        ahead = E.fresh("ahead", z3.BitVecSort(16))
+        child = GStub("Accessor", {})
+        got_acc = []
+        acc = GStub("Accessor", {"BpGetAccessor": lambda I, a: (got_acc.append(a[0]), [child])[1]})
+        calls, prefix = [], []
+        fds = []
+        for k in range(nf):
+            def proc(I, a, k=k):
+                calls.append((k, a[0], a[1], a[2], _ci(ctx)))
+                _adv(ctx, ws[k])
+                return []
+            fds.append(GStub("*MessageFieldProcessor", {"Process": proc}))
+        t = it.zero(pkg, ("name", "MessageProcessor"))
+        t.f["extensible"] = ext
+        t.f["nbits"] = GInt("int", 64, True, E.fresh("nbits", B64))
+        t.f["fieldDescriptors"] = GSlice(fds)
+        it.method_contracts[("MessageProcessor", "EncodeExtensibleAhead")] = lambda I, r, a: (prefix.append(("enc", _ci(ctx))), _adv(ctx, 16), [])[2]
+        it.method_contracts[("MessageProcessor", "DecodeExtensibleAhead")] = lambda I, r, a: (prefix.append(("dec", _ci(ctx))), _adv(ctx, 16),
+                                                                                               [GInt("uint16", 16, False, ahead)])[2]
+        di = it.call_func(pkg, pkg.funcs["NewDataIndexer"], [3])[0]
+        cp = GPtr(ctx)
+        it.invoke(("method", GPtr(t), "Process"), [cp, di, acc])
+        pre = 16 if ext else 0
+        own = z3.BitVecVal(pre, 64)
+        ok = len(calls) == nf and got_acc == [di]
+        for k in range(nf):
+            if ok:
+                c = calls[k]
+                ok = c[0] == k and c[1] is cp and c[3] is child
+                E.oblige("post:field-call[%d]" % k, z3.And(z3.BoolVal(bool(ok)), c[4] == i0 + own))
+            own = own + ws[k]
+        E.oblige("post:fields-in-order", z3.BoolVal(bool(ok)))
+        E.oblige("post:prefix-call", z3.And(z3.BoolVal(len(prefix) == 1 and prefix[0][0] == ("enc" if enc else "dec")), prefix[0][1] == i0)
+                 if ext and prefix else z3.BoolVal(not ext and not prefix))
+        if enc or not ext:
+            E.oblige("post:cursor", _ci(ctx) == i0 + own)
+        else:
+            a64 = z3.ZeroExt(48, ahead)
+            E.oblige("post:cursor", _ci(ctx) == i0 + z3.If(a64 >= own, a64, own))
+    return _p
+
+
+for _enc in (True, False):
+    for _ext in (True, False):
+        for _nf in (0, 1, 2, 3):
+            _go_message(_enc, _ext, _nf)
+
+
+@gomethod("go:MessageFieldProcessor.Process", "MessageFieldProcessor", "Process", ["C19", "C12"])
+def _go_field(E, it, pkg):
+    """the type processor runs with the same ctx and accessor and a FRESH indexer carrying the field's declared number"""
+    ctx, i0 = _ctx(E, it, pkg, True)
+    fn = E.fresh("field_number", B64)
+    calls = []
+    t = it.zero(pkg, ("name", "MessageFieldProcessor"))
+    t.f["fieldNumber"] = GInt("int", 64, True, fn)
+    t.f["typeProcessor"] = GStub("Processor", {"Process": lambda I, a: (calls.append(a), [])[1]})
+    acc = GStub("Accessor", {})
+    cp = GPtr(ctx)
+    outer = it.call_func(pkg, pkg.funcs["NewDataIndexer"], [99])[0]
+    it.invoke(("method", GPtr(t), "Process"), [cp, outer, acc])
+    ok = len(calls) == 1 and calls[0][0] is cp and calls[0][2] is acc and calls[0][1] is not outer
+    E.oblige("post:one-call(ctx, fresh indexer, accessor)", z3.BoolVal(bool(ok)))
+    if ok:
+        d = calls[0][1].t
+        E.oblige("post:indexer-carries-field-number", z3.And(d.f["fnumber"].term() == fn, z3.BoolVal(len(d.f["aistack"]) == 0)))
+
+
+def _go_forwarder(tname, field, inner_t=None):
+    @gomethod("go:%s.Process" % tname, tname, "Process", ["C19"])
+    def _p(E, it, pkg):
+        """forwards to the inner processor with the same ctx, di and accessor (cursor and data untouched by the wrapper itself)"""
+        ctx, i0 = _ctx(E, it, pkg, True)
+        calls = []
+        t = it.zero(pkg, ("name", tname))
+        if inner_t:
+            it.method_contracts[(inner_t, "Process")] = lambda I, r, a: (calls.append([r] + list(a)), [])[1]
+            inner = GPtr(it.zero(pkg, ("name", inner_t)))
+            t.f[field] = inner
+        else:
+            inner = GStub("Processor", {"Process": lambda I, a: (calls.append([inner] + list(a)), [])[1]})
+            t.f[field] = inner
+        acc = GStub("Accessor", {})
+        cp = GPtr(ctx)
+        di = it.call_func(pkg, pkg.funcs["NewDataIndexer"], [5])[0]
+        it.invoke(("method", GPtr(t), "Process"), [cp, di, acc])
+        ok = len(calls) == 1 and calls[0][0] is inner and calls[0][1] is cp and calls[0][2] is di and calls[0][3] is acc
+        E.oblige("post:forward", z3.And(z3.BoolVal(bool(ok)), _ci(ctx) == i0))
+    return _p
+
+
+_go_forwarder("AliasProcessor", "to")
+_go_forwarder("EnumProcessor", "ut", "Uint")
+
+
+def _go_leaf(tname, nb, signed):
+    for enc in (True, False):
+        @gomethod("go:%s.Process/%s" % (tname, "encode" if enc else "decode"), tname, "Process", ["C19", "C14"])
+        def _p(E, it, pkg, enc=enc):
+            """exactly one processBaseType(nbits of the type, ctx, di, accessor); for Int when decoding followed by accessor.BpProcessInt(di)
+            (sign extension), never when encoding; nothing else"""
+            ctx, i0 = _ctx(E, it, pkg, enc)
+            t = it.zero(pkg, ("name", tname))
+            if nb is None:
+                n = E.fresh("nbits", B64)
+                t.f["nbits"] = GInt("int", 64, True, n)
+            else:
+                n = z3.BitVecVal(nb, 64)
+            log = []
+            acc = GStub("Accessor", {"BpProcessInt": lambda I, a: (log.append(("sign", a)), [])[1]})
+            it.helper_contracts["processbasetype"] = lambda I, a: (log.append(("base", a)), [])[1]
+            cp = GPtr(ctx)
+            di = it.call_func(pkg, pkg.funcs["NewDataIndexer"], [5])[0]
+            it.invoke(("method", GPtr(t), "Process"), [cp, di, acc])
+            want = ["base"] + (["sign"] if signed and not enc else [])
+            ok = [x[0] for x in log] == want and log[0][1][1] is cp and log[0][1][2] is di and log[0][1][3] is acc \
+                and (len(log) == 1 or log[1][1][0] is di)
+            a0 = log[0][1][0] if log else None
+            a0 = a0.term() if hasattr(a0, "term") else z3.BitVecVal(int(a0 or 0), 64)
+            E.oblige("post:calls", z3.And(z3.BoolVal(bool(ok)), a0 == n))
+
+
+_go_leaf("Bool", 1, False)
+_go_leaf("Byte", 8, False)
+_go_leaf("Uint", None, False)
+_go_leaf("Int", None, True)
+
+
+from ..gosym.interp import GSymBytes
+
+
+def _go_single(enc):
+    name = "encodeSingleByte" if enc else "decodeSingleByte"
+
+    @goproof("go:" + name, name, ["C19", "C14", "C07"])
+    def _p(E, it, pkg):
+        """the c bits [j, j+c) of the value (inside ONE byte of it: j%8 + c <= 8) and the c stream bits [i, i+c) (inside ONE buffer
+        byte: i%8 + c <= 8) - encode: s[i/8] |= those value bits moved to bit i%8, taken from accessor.BpGetByte(di, 8*(j/8)), nothing
+        else of s changes; decode: accessor.BpSetByte(di, 8*(j/8), d) with d = those stream bits moved to bit j%8 and every other bit
+        of d zero, s unchanged; any buffer length, any cursor"""
+        n = E.fresh("len_s", B64)
+        i0 = E.fresh("i", B64)
+        j = E.fresh("j", B64)
+        c = E.fresh("c", B64)
+        E.assume(z3.And(n >= 1, n < (1 << 40), i0 >= 0, z3.UDiv(i0, 8) < n, j >= 0, j < 64, c >= 1, c <= 8,
+                        z3.URem(i0, 8) + c <= 8, z3.URem(j, 8) + c <= 8))
+        E.cover("requires")
+        arr0 = z3.Array("s", B64, z3.BitVecSort(8))
+        buf = GSymBytes(arr0, n)
+        ctx = it.zero(pkg, ("name", "ProcessContext"))
+        ctx.f["isEncode"] = enc
+        ctx.f["i"] = GInt("int", 64, True, i0)
+        ctx.f["s"] = buf
+        b = E.fresh("b", z3.BitVecSort(8))
+        log = []
+        acc = GStub("Accessor", {"BpGetByte": lambda I, a: (log.append(("get", a)), [GInt("uint8", 8, False, b)])[1],
+                                 "BpSetByte": lambda I, a: (log.append(("set", a)), [])[1]})
+        di = it.call_func(pkg, pkg.funcs["NewDataIndexer"], [1])[0]
+        it.call_func(pkg, pkg.funcs[name], [GPtr(ctx), di, acc, GInt("int", 64, True, j), GInt("int", 64, True, c)])
+        ib, ir, jr = z3.UDiv(i0, 8), z3.Extract(7, 0, z3.URem(i0, 8)), z3.Extract(7, 0, z3.URem(j, 8))
+        c8 = z3.Extract(7, 0, c)
+        ones = z3.LShR(z3.BitVecVal(255, 8), 8 - c8)                      # 2^c - 1
+        E.oblige("post:cursor-unchanged", ctx.f["i"].term() == i0)
+        if enc:
+            ok = len(log) == 1 and log[0][0] == "get" and log[0][1][0] is di
+            sh = log[0][1][1].term() if ok else None
+            E.oblige("post:reads-value-byte(di, 8*(j/8))", z3.And(z3.BoolVal(bool(ok)), sh == 8 * z3.UDiv(j, 8)) if ok else z3.BoolVal(False))
+            want = z3.Select(arr0, ib) | ((z3.LShR(b, jr) & ones) << ir)
+            E.oblige("post:buffer-byte", z3.Select(buf.arr, ib) == want)
+            m = E.fresh("m", B64)
+            E.oblige("post:other-bytes-unchanged", z3.Implies(m != ib, z3.Select(buf.arr, m) == z3.Select(arr0, m)))
+        else:
+            ok = len(log) == 1 and log[0][0] == "set" and log[0][1][0] is di
+            if ok:
+                sh, d = log[0][1][1].term(), log[0][1][2].term()
+                E.oblige("post:writes-value-byte(di, 8*(j/8), d)", z3.And(sh == 8 * z3.UDiv(j, 8),
+                                                                         d == ((z3.LShR(z3.Select(arr0, ib), ir) & ones) << jr)))
+            else:
+                E.oblige("post:writes-value-byte(di, 8*(j/8), d)", z3.BoolVal(False))
+            m = E.fresh("m", B64)
+            E.oblige("post:buffer-unchanged", z3.Select(buf.arr, m) == z3.Select(arr0, m))
+    return _p
+
+
+_go_single(True)
+_go_single(False)
+
+
+@goproof("go:processSingleByte", "processSingleByte", ["C19", "C14"])
+def _go_psb(E, it, pkg):
+    """dispatch on ctx.isEncode to exactly one of encodeSingleByte / decodeSingleByte with the same arguments"""
+    for enc in (True, False):
+        ctx = it.zero(pkg, ("name", "ProcessContext"))
+        ctx.f["isEncode"] = enc
+        log = []
+        it.helper_contracts["encodesinglebyte"] = lambda I, a: (log.append(("enc", a)), [])[1]
+        it.helper_contracts["decodesinglebyte"] = lambda I, a: (log.append(("dec", a)), [])[1]
+        acc = GStub("Accessor", {})
+        di = it.call_func(pkg, pkg.funcs["NewDataIndexer"], [1])[0]
+        cp = GPtr(ctx)
+        j, c = GInt("int", 64, True, E.fresh("j", B64)), GInt("int", 64, True, E.fresh("c", B64))
+        it.call_func(pkg, pkg.funcs["processSingleByte"], [cp, di, acc, j, c])
+        ok = len(log) == 1 and log[0][0] == ("enc" if enc else "dec") and log[0][1][0] is cp and log[0][1][1] is di and log[0][1][2] is acc
+        E.oblige("post:dispatch[%s]" % ("encode" if enc else "decode"),
+                 z3.And(z3.BoolVal(bool(ok)), log[0][1][3].term() == j.term(), log[0][1][4].term() == c.term()) if ok else z3.BoolVal(False))
